@@ -1866,8 +1866,16 @@ class mulgrid(object):
             ok = False
             if not silent: print('Extra connections:', list(ec))
             if fix:
-                for c in ec: self.delete_connection(c)
+                for c in ec:
+                    cols = self.connection[c].column
+                    self.delete_connection(c)
+                    # columns that are no longer connected are not neighbours:
+                    for i in range(2): cols[i].neighbour.discard(cols[not i])
                 if not silent: print('Extra connections fixed.')
+        if fix and (len(mc) > 0 or len(ec) > 0):
+            # connections changed, so the block connection names have too:
+            self.setup_block_name_index()
+            self.setup_block_connection_name_index()
         orphans = self.orphans
         if len(orphans) > 0:
             ok = False
